@@ -20,7 +20,7 @@ RULE = ("cases = entry-point pairs that must agree x walker type x sampler shape
         "selected so that |Re E_L - e_est| > sqrt(2/dt) for some and |Re E_L - e_est| <= sqrt(2/dt) < |E_L - e_est| for others; reproducibility "
         "cases run twice in-process and once in a fresh process; batch cases use every n_batch dividing n_walkers; non-trivial = weights not "
         "all equal at the end or capping triggered")
-MIN_NONTRIVIAL = {"quick": 10, "thorough": 60}
+MIN_NONTRIVIAL = {"quick": 10, "thorough": 45}
 TIMEOUT = {"quick": 3000, "thorough": 12000}
 ASSUMPTIONS = ["converged SCF trial for comparisons that involve orbital relaxation", "single-process runs (no MPI)"]
 REQUIRED_COUNTERS = {"entry_calls": 20, "estimator_checks": 4, "capped_real": 1, "capped_imag": 1, "reordering_reconfigurations": 4}
